@@ -809,6 +809,12 @@ func (f *Frame) lookupLocal(name string) (SV, bool) {
 				}
 			} else if f.loops[b] != nil {
 				rank = 1
+			} else {
+				// outside loops: the join that comes last (deepest in the dominator tree) holds the variable's final value
+				rank = 2
+				for d := b.Idom(); d != nil; d = d.Idom() {
+					rank++
+				}
 			}
 			if rank > bestRank {
 				best, bestRank = phi, rank
